@@ -16,9 +16,9 @@ theorem addW_eq {a b : Nat} (h : a + b < W) : addW a b = a + b := by
 
 /-- Second pass: from a running total `d ≤ pot` the amounts add up to exactly `pot - d`
     and none exceeds it, whatever the float-derived shares are. -/
-theorem amounts_sum (pot : Nat) (fd : FD) (hp : pot < W) :
+theorem amounts_sum (pot : Nat) (fd : FD) (n : Nat) (hn : n > 0) (hp : pot < W) :
     ∀ (pools : List Pool) (d : Nat), pools ≠ [] → d ≤ pot →
-      (amounts pot fd pools d).sum = pot - d ∧ ∀ a ∈ amounts pot fd pools d, a ≤ pot - d := by
+      (amounts pot fd n pools d).sum = pot - d ∧ ∀ a ∈ amounts pot fd n pools d, a ≤ pot - d := by
   intro pools
   induction pools with
   | nil => intro d h; exact absurd rfl h
@@ -27,19 +27,30 @@ theorem amounts_sum (pot : Nat) (fd : FD) (hp : pot < W) :
     have hsub : subW pot d = pot - d := subW_eq hd hp
     cases ps with
     | nil =>
-      simp only [amounts, hsub]
+      simp only [amounts, poolAmount, distributedNext, lastAdjustCond, lastAdjust, hsub]
       have ht : min (wrap (fd.poolT p)) (pot - d) ≤ pot - d := Nat.min_le_right _ _
       generalize min (wrap (fd.poolT p)) (pot - d) = t at ht
       have h1 : addW d t = d + t := addW_eq (by omega)
       have h2 : subW pot (d + t) = pot - (d + t) := subW_eq (by omega) hp
       have h3 : addW t (pot - (d + t)) = t + (pot - (d + t)) := addW_eq (by omega)
       rw [h1, h2, h3]
-      simp only [List.sum_cons, List.sum_nil, List.mem_singleton]
-      constructor
-      · omega
-      · intro a ha; omega
+      by_cases hc : ((d + t != pot) && decide (n > 0)) = true
+      · simp only [hc, if_true, List.sum_cons, List.sum_nil, List.mem_singleton]
+        constructor
+        · omega
+        · intro a ha; omega
+      · have hc' : ((d + t != pot) && decide (n > 0)) = false := by simpa using hc
+        have heq : d + t = pot := by
+          simp only [Bool.and_eq_false_iff, decide_eq_false_iff_not] at hc'
+          rcases hc' with h | h
+          · simpa using h
+          · omega
+        simp only [hc', Bool.false_eq_true, if_false, List.sum_cons, List.sum_nil, List.mem_singleton]
+        constructor
+        · omega
+        · intro a ha; omega
     | cons q qs =>
-      simp only [amounts, hsub]
+      simp only [amounts, poolAmount, distributedNext, hsub]
       have ht : min (wrap (fd.poolT p)) (pot - d) ≤ pot - d := Nat.min_le_right _ _
       generalize min (wrap (fd.poolT p)) (pot - d) = t at ht
       have h1 : addW d t = d + t := addW_eq (by omega)
@@ -53,8 +64,8 @@ theorem amounts_sum (pot : Nat) (fd : FD) (hp : pot < W) :
         · exact ht
         · have := ihm a ha; omega
 
-theorem amounts_length (pot : Nat) (fd : FD) :
-    ∀ (pools : List Pool) (d : Nat), (amounts pot fd pools d).length = pools.length := by
+theorem amounts_length (pot : Nat) (fd : FD) (n : Nat) :
+    ∀ (pools : List Pool) (d : Nat), (amounts pot fd n pools d).length = pools.length := by
   intro pools
   induction pools with
   | nil => intro d; simp [amounts]
@@ -78,7 +89,7 @@ theorem delRewards_sum (fd : FD) (p : Pool) (S : Nat) (hS : S < W) :
   | nil => intro a ha; simp [delRewards, rewardSum, ha]
   | cons d ds ih =>
     intro a ha
-    simp only [delRewards]
+    simp only [delRewards, delReward, assignedNext]
     split
     · have hsub : subW S a = S - a := subW_eq ha hS
       rw [hsub]
@@ -119,7 +130,7 @@ theorem noDels_le (p : Pool) (n : Nat) : ∀ e ∈ noDels p, e.2.getD 0 ≤ n :=
 
 theorem opAfterMargin_bounds (fd : FD) (p : Pool) (total : Nat) (ht : total < W) (hc : p.cost < total) :
     opAfterMargin fd p total ≤ total ∧ p.cost ≤ opAfterMargin fd p total := by
-  unfold opAfterMargin
+  unfold opAfterMargin opAfterShare
   split
   · have hs : subW total p.cost = total - p.cost := subW_eq (by omega) ht
     rw [hs]
@@ -140,12 +151,14 @@ theorem stakeholderLoop_sum (fd : FD) (p : Pool) (S : Nat) (hS : S < W) :
 
 theorem opFinal_exact (op S assigned total : Nat) (ht : total < W) (hop : op ≤ total) (hS : S = total - op)
     (ha : assigned ≤ S) : opFinal op S assigned + assigned = total ∧ opFinal op S assigned ≤ total := by
-  unfold opFinal
+  unfold opFinal remainderCond opWithRemainder
   have hsub : subW S assigned = S - assigned := subW_eq ha (by omega)
   have hadd : addW op (S - assigned) = op + (S - assigned) := addW_eq (by omega)
   split
   · rw [hsub, hadd]; omega
-  · omega
+  · rename_i h
+    have : ¬ S > assigned := by simpa using h
+    omega
 
 /-- `distributePoolRewards`: operator + delegators = total, nothing above the total. -/
 theorem distribute_exact (fd : FD) (p : Pool) (total : Nat) (ht : total < W) :
@@ -157,9 +170,10 @@ theorem distribute_exact (fd : FD) (p : Pool) (total : Nat) (ht : total < W) :
   split
   · exact ⟨rfl, by simp [rewardSum_noDels], Nat.le_refl _, noDels_le p total⟩
   · rename_i hc
+    have hc : ¬ total ≤ p.cost := by simpa [costGuard] using hc
     obtain ⟨hop1, _⟩ := opAfterMargin_bounds fd p total ht (by omega)
     generalize opAfterMargin fd p total = op at hop1 ⊢
-    have hS : subW total op = total - op := subW_eq hop1 ht
+    have hS : stakeholderTotal op total = total - op := by unfold stakeholderTotal; exact subW_eq hop1 ht
     rw [hS]
     obtain ⟨l1, l2, l3⟩ := stakeholderLoop_sum fd p (total - op) (by omega)
     generalize stakeholderLoop fd p (total - op) = res at l1 l2 l3 ⊢
